@@ -11,7 +11,7 @@ def brief(kind,o):
     if kind=='Ingress':
         ann={k.split('/')[-1]:v for k,v in (m.get('annotations') or {}).items()}
         sp=o.get('spec',{})
-        rules=[(ru.get('host',''),[(p.get('path'),p.get('pathType'),p['backend']['service']['name'],p['backend']['service']['port']) for p in ru.get('http',{}).get('paths',[])]) for ru in sp.get('rules',[])]
+        rules=[(ru.get('host',''),[(p.get('path'),p.get('pathType'),p['backend']['service']['name'],p['backend']['service']['port']) for p in ((ru.get('http') or {}).get('paths') or [])]) for ru in sp.get('rules',[])]
         s+=f" created={m.get('creationTimestamp')} class={sp.get('ingressClassName')} ann={ann} rules={rules} tls={sp.get('tls')} default={sp.get('defaultBackend')}"
     elif kind=='ConfigMap': s+=f" data={o.get('data')}"
     elif kind=='Endpoints': s+=' '+str([( [a['ip'] for a in ss.get('addresses',[])], [a['ip'] for a in ss.get('notReadyAddresses',[])], ss.get('ports')) for ss in o.get('subsets',[])])
